@@ -82,16 +82,19 @@ var scriptPool = []string{
 	"return tile38.call('del', KEYS[1], ARGV[1])",
 	"return tile38.call('keys', '*')",
 	"return tile38.call('ttl', KEYS[1], ARGV[1])",
-	"return tile38.pcall('get')", "return tile38.call('get')", "return tile38.call('output', 'json')",
-	"return tile38.pcall('nosuch', 'x')",
-	"return tile38.error_reply('boom')", "return tile38.status_reply('fine')", "return {err='x y'}", "return {ok='y'}",
+	"return tile38.call('get')", "return tile38.call('output', 'json')", "return {tile38.pcall('get')}",
+	"return {p=tile38.pcall('nosuch', 'x')}",
+	"return tile38.status_reply('fine')", "return {ok='y'}", "return {tile38.status_reply('x'), {s=tile38.status_reply('y')}}",
+	"return {a=tile38.error_reply('bad')}", "return {1, {tile38.error_reply('deep')}}",
 	"return {tile38.error_reply('in'), 1}",
 	"return tile38.sha1hex('a')", "return tile38.distance_to(1,2,3,4)", "return json.encode({a=1})",
 	"return json.decode('{\"a\":[1,2]}')",
 	"error('bad')", "error({code=1})", "return (", "return nosuchglobal", "x = 1 return x",
 	"return 'quote\"back\\\\slash\\nnl'", "return '\\255\\0\\1'", "return 'é世😀'",
 	"return string.rep('x', 200)", "return string.rep('y', 70000)",
-	"return 10000000000000000000000", "return -0", "return 2^53", "return {1.5, -2.5, 1e300}",
+	"return -0", "return 2^53", "return -2^53", "return {1.5, -2.5, 9e15}", "return 9007199254740993", "return 2^63-1025", "return -2^63",
+	"return {1,nil,3}", "return {1,2,x='y'}", "return {[1]='a',[3]='c'}", "return {[2]='b'}", "return {1,{2,{3,{4,{5}}}}}", "return {n={m={o='p'}}}",
+	"return {tile38.call}", "return {f=tile38.call}", "return {{{string.rep}}}",
 	"return ARGV", "return KEYS", "return #ARGV", "return {KEYS, ARGV}",
 	"local t = {} for i=1,130 do t[i]=i end return t",
 }
@@ -99,12 +102,21 @@ var scriptPool = []string{
 // scripts whose result is a non-finite number or a table with a non-string
 // key: they trigger known-finding candidates and are only generated when the
 // corresponding finding is not excluded.
-var scriptNonFinite = []string{"return 0/0", "return 1/0", "return -1/0", "return {1/0}", "return math.huge"}
+var scriptNonFinite = []string{"return 0/0", "return 1/0", "return -1/0", "return {1/0}", "return {n=-1/0}"}
+
+// scripts whose top-level result RESP reports as an error while JSON reports
+// ok:true with the same content as "result" (finding eval-error-result-ok-in-json)
+var scriptErrTop = []string{"return tile38.error_reply('bad')", "return tile38.error_reply('boom\\nline')", "return {err='x y'}", "return tile38.pcall('get')",
+	"return tile38.pcall('nosuch', 'x')", "return tile38.call", "return string.rep"}
+
+// scripts returning numbers beyond the int64 range (finding resp-eval-number-beyond-int64)
+var scriptBigNum = []string{"return 1e300", "return -1e19", "return 2^63", "return 10000000000000000000000", "return {1.5, -2.5, 1e300}", "return {big=-1e300}", "return 2^64", "return math.huge"}
+
 var scriptOddKeys = []string{"return {[1.5]='x'}", "return {[true]='x'}", "return {[-1]='x'}", "return {[{}]='x'}"}
 
 var badNumsPlain = []string{"abc", "", "1e999", "1.5.2", "0x", "١٢", "--1", "1,5", "1 2", "9999999999999999999999", "-", "+", "1\x002"}
 var badNumsSmall = []string{"-1", "0", "-0.5", "1.5", "18446744073709551616", "-9223372036854775809"}
-var badNumsNonFinite = []string{"nan", "NaN", "inf", "-inf", "+Inf", "Infinity", "-infinity"}
+var badNumsNonFinite = []string{"nan", "NaN", "inf", "-inf", "+Inf", "Infinity", "-infinity", "1e999", "-1e999"}
 
 // G is the generation context of one case.
 type G struct {
@@ -115,6 +127,8 @@ type G struct {
 	nonFinite     bool // non-finite coordinates may be generated
 	evalNonFinite bool // scripts returning non-finite numbers may be generated
 	oddKeys       bool // scripts returning tables with non-string keys may be generated
+	errTop        bool // scripts whose top-level result is an error value may be generated
+	bigNum        bool // scripts returning numbers beyond int64 may be generated
 	noLineAreas   bool // see area
 	onExcluded    func(id string)
 }
@@ -649,6 +663,12 @@ func (g *G) validShape(name string) (args []arg, ok bool) {
 		if g.oddKeys {
 			pool = append(append([]string{}, pool...), scriptOddKeys...)
 		}
+		if g.errTop {
+			pool = append(append([]string{}, pool...), scriptErrTop...)
+		}
+		if g.bigNum {
+			pool = append(append([]string{}, pool...), scriptBigNum...)
+		}
 		return a(g.evalTail(arg{g.pick("script", pool), rScr})...), true
 	case "evalsha", "evalrosha", "evalnasha":
 		sha := sha1hex(g.pick("shaof", scriptPool[:12]))
@@ -786,8 +806,9 @@ func (g *G) badNum(role byte) string {
 	pool := append([]string{}, badNumsPlain...)
 	switch role {
 	case rTTL:
-		// never a small or non-finite number of seconds: the twins would see
-		// the expiry at different moments
+		// never a small or negative number of seconds (the twins would see
+		// the expiry at different moments); NaN and +Inf saturate to "never"
+		pool = append(pool, "nan", "NaN", "inf", "+Inf", "Infinity", "1e999")
 	case rCoord:
 		pool = append(pool, "1e400", "-1e400", "181", "-91.5", "1e308")
 		if g.nonFinite {
@@ -900,6 +921,9 @@ func parsesSmall(s string, limit float64) bool {
 	f, err := strconv.ParseFloat(strings.TrimSpace(s), 64)
 	if err != nil {
 		return false // rejected by the server
+	}
+	if math.IsNaN(f) || math.IsInf(f, +1) {
+		return false // saturates to "never expires" / refused: the same on every server
 	}
 	return !(f >= limit && f <= 1e9)
 }
